@@ -580,7 +580,8 @@ class PteraTransformer(NodeTransformer):
                 ast.Constant(value=None),
                 ann_arg,
                 value_arg,
-                True,
+                # A variable of an enclosing function cannot be overridden
+                target.id not in self.free,
             ]
         elif isinstance(target, ast.Subscript) and isinstance(
             target.value, ast.Name
